@@ -1,2 +1,653 @@
-(* Proofs about Model/Path.v.  (Statements fixed in Props/C08.v and pins/C08.v.) *)
+(* Proofs about Model/Path.v. *)
 From TsRs Require Import Base.Str Base.Outcome Model.Path.
+
+Definition names_ok (l : list str) : Prop := Forall (fun n => name_ok n = true) l.
+Definition no_backslash (l : list str) : Prop := Forall (fun n => ~ In backslash n) l.
+(* --- components ---------------------------------------------------------------------------- *)
+(* `Root` occurs only in head position of what `components` returns, `Cur` only in head position,
+   and every normal name is a legal component name *)
+Definition comps_wf (cs : list comp) : Prop :=
+  Forall (fun c => c <> Root /\ c <> Cur) (tl cs) /\
+  Forall (fun c => match c with Normal n => name_ok n = true | _ => True end) cs.
+
+(* ---- auxiliary: generic list facts *)
+Lemma list_snoc_cases {A} (l : list A) : l = [] \/ exists l' x, l = l' ++ [x].
+Proof.
+  destruct l as [|a l] using rev_ind; [left; reflexivity | right; eauto].
+Qed.
+
+Lemma Forall_tl {A} (P : A -> Prop) l : Forall P l -> Forall P (tl l).
+Proof. intros H; destruct H; cbn; [constructor | assumption]. Qed.
+
+(* ---- auxiliary: split_slash *)
+Notation noslash p := (existsb (N.eqb slash) p = false).
+
+Lemma split_slash_no_slash s p : In p (split_slash s) -> noslash p.
+Proof.
+  revert p; induction s as [|c r IH]; intros p; cbn [split_slash].
+  - intros [<-|[]]. reflexivity.
+  - destruct (N.eqb_spec c slash) as [->|Hne].
+    + intros [<-|H]; [reflexivity | apply IH; exact H].
+    + assert (Hc : (slash =? c) = false) by (apply N.eqb_neq; congruence).
+      destruct (split_slash r) as [|q qs].
+      * intros [<-|[]]. cbn [existsb]. rewrite Hc. reflexivity.
+      * intros [<-|H].
+        -- cbn [existsb]. rewrite Hc. cbn [orb]. apply IH. left; reflexivity.
+        -- apply IH. right; exact H.
+Qed.
+
+Lemma name_ok_inv n :
+  name_ok n = true <->
+  str_eqb n [] = false /\ str_eqb n s_dot = false /\ str_eqb n s_dotdot = false /\ noslash n.
+Proof. unfold name_ok. rewrite !andb_true_iff, !negb_true_iff. tauto. Qed.
+
+Definition cP1 (c : comp) : Prop := c <> Root /\ c <> Cur.
+Definition cP2 (c : comp) : Prop := match c with Normal n => name_ok n = true | _ => True end.
+
+Lemma comp_of_wf ld piece c :
+  noslash piece -> In c (comp_of ld piece) -> cP2 c /\ c <> Root /\ (ld = false -> c <> Cur).
+Proof.
+  intros Hns. unfold comp_of.
+  destruct (str_eqb piece []) eqn:E1; [intros []|].
+  destruct (str_eqb piece s_dot) eqn:E2.
+  - destruct ld; [|intros []]. intros [<-|[]]. repeat split; congruence.
+  - destruct (str_eqb piece s_dotdot) eqn:E3; intros [<-|[]].
+    + repeat split; congruence.
+    + repeat split; try congruence. cbn. apply name_ok_inv. tauto.
+Qed.
+
+Lemma comp_of_length ld piece : comp_of ld piece = [] \/ exists c, comp_of ld piece = [c].
+Proof.
+  unfold comp_of. repeat match goal with |- context [if ?b then _ else _] => destruct b end; eauto.
+Qed.
+
+Lemma flat_comp_of_wf l :
+  (forall p, In p l -> noslash p) ->
+  Forall cP1 (flat_map (comp_of false) l) /\ Forall cP2 (flat_map (comp_of false) l).
+Proof.
+  intros H. split; apply Forall_forall; intros c Hc; apply in_flat_map in Hc;
+    destruct Hc as (p & Hp & Hc); destruct (comp_of_wf false p c (H p Hp) Hc) as (H2 & Hr & Hcur).
+  - split; auto.
+  - exact H2.
+Qed.
+
+Lemma components_wf s : comps_wf (components s).
+Proof.
+  unfold comps_wf, components. fold cP1 cP2. destruct s as [|c r]; [split; constructor|].
+  destruct (c =? slash) eqn:Ec.
+  - destruct (flat_comp_of_wf (split_slash r) (split_slash_no_slash r)) as [H1 H2].
+    cbn [tl]. split; [exact H1 | constructor; [exact I | exact H2]].
+  - pose proof (split_slash_no_slash (c :: r)) as Hns.
+    destruct (split_slash (c :: r)) as [|first rest]; [split; constructor|].
+    destruct (flat_comp_of_wf rest) as [H1 H2]; [intros p Hp; apply Hns; right; exact Hp|].
+    assert (Hf : Forall cP2 (comp_of true first)).
+    { apply Forall_forall. intros x Hx.
+      apply (comp_of_wf true first x (Hns first (or_introl eq_refl)) Hx). }
+    split; [|apply Forall_app; split; assumption].
+    destruct (comp_of_length true first) as [->|[x ->]]; cbn [app tl]; [apply Forall_tl|]; exact H1.
+Qed.
+
+(* --- absolute ------------------------------------------------------------------------------ *)
+(* ---- auxiliary: absolute_loop *)
+Lemma absolute_loop_app out l1 l2 :
+  absolute_loop out (l1 ++ l2) = bind (absolute_loop out l1) (fun o => absolute_loop o l2).
+Proof.
+  revert out; induction l1 as [|c l1 IH]; intros out; [reflexivity|].
+  cbn [app absolute_loop]. destruct c; try apply IH.
+  destruct (rev out) as [|[] ?]; try reflexivity. apply IH.
+Qed.
+
+Lemma absolute_loop_normals out l : absolute_loop out (map Normal l) = Ok (out ++ map Normal l).
+Proof.
+  revert out; induction l as [|n l IH]; intros out; cbn [map absolute_loop].
+  - rewrite app_nil_r. reflexivity.
+  - rewrite IH, <- app_assoc. reflexivity.
+Qed.
+
+Lemma absolute_loop_no_panic cs out m : absolute_loop out cs <> Panic m.
+Proof.
+  revert out; induction cs as [|c cs IH]; intros out; cbn [absolute_loop]; [discriminate|].
+  destruct c; try apply IH.
+  destruct (rev out) as [|[] ?]; try discriminate. apply IH.
+Qed.
+
+Lemma absolute_loop_hd_root cs out r :
+  (exists t, out = Root :: t) -> absolute_loop out cs = Ok r -> exists t, r = Root :: t.
+Proof.
+  revert out; induction cs as [|c cs IH]; intros out [t ->]; cbn [absolute_loop].
+  - intros [= <-]. eauto.
+  - destruct c.
+    + apply IH. cbn. eauto.
+    + apply IH. eauto.
+    + destruct (rev (Root :: t)) as [|[| | |n] o] eqn:E; try discriminate.
+      apply IH. apply (f_equal (@rev _)) in E. rewrite rev_involutive in E. cbn [rev] in E.
+      destruct (rev o) as [|x o']; cbn in E; [discriminate|]. injection E as <- _. eauto.
+    + apply IH. cbn. eauto.
+Qed.
+
+Definition joined_tail (cwd : list str) (cs : list comp) : list comp :=
+  match cs with
+  | Root :: r => r
+  | Cur :: r => map Normal cwd ++ r
+  | _ => map Normal cwd ++ cs
+  end.
+
+Lemma joined_comps_eq cwd cs : joined_comps cwd cs = Root :: joined_tail cwd cs.
+Proof. destruct cs as [|[] ?]; reflexivity. Qed.
+
+Lemma absolute_comps_eq cwd cs :
+  absolute_comps cwd cs = absolute_loop [Root] (joined_tail cwd cs).
+Proof.
+  unfold absolute_comps. rewrite joined_comps_eq.
+  change (absolute_loop [] (Root :: joined_tail cwd cs))
+    with (absolute_loop [Root] (joined_tail cwd cs)).
+  destruct (absolute_loop [Root] (joined_tail cwd cs)) as [[|x a]| |] eqn:E; try reflexivity.
+  apply absolute_loop_hd_root in E; [destruct E; discriminate | eauto].
+Qed.
+
+Lemma rev_root_normals_snoc ns n :
+  rev (Root :: map Normal (ns ++ [n])) = Normal n :: rev (Root :: map Normal ns).
+Proof. cbn [rev]. rewrite map_app, rev_app_distr. reflexivity. Qed.
+
+Lemma absolute_loop_shape cs ns r :
+  names_ok ns -> Forall (fun c => c <> Root) cs -> Forall cP2 cs ->
+  absolute_loop (Root :: map Normal ns) cs = Ok r ->
+  exists ns', r = Root :: map Normal ns' /\ names_ok ns'.
+Proof.
+  revert ns; induction cs as [|c cs IH]; intros ns Hns H1 H2; cbn [absolute_loop].
+  - intros [= <-]. eauto.
+  - inversion H1 as [|? ? Hc H1']; subst. inversion H2 as [|? ? Hc2 H2']; subst.
+    destruct c as [| | |n].
+    + congruence.
+    + apply IH; assumption.
+    + destruct (list_snoc_cases ns) as [->|(ns' & x & ->)]; [discriminate|].
+      rewrite rev_root_normals_snoc, rev_involutive. apply IH; try assumption.
+      apply Forall_app in Hns. apply Hns.
+    + change ((Root :: map Normal ns) ++ [Normal n]) with (Root :: (map Normal ns ++ map Normal [n])).
+      rewrite <- map_app. apply IH; try assumption.
+      apply Forall_app; split; [assumption | constructor; [exact Hc2 | constructor]].
+Qed.
+
+Lemma names_ok_normals ns :
+  names_ok ns -> Forall (fun c => c <> Root) (map Normal ns) /\ Forall cP2 (map Normal ns).
+Proof.
+  intros H. split; apply Forall_forall; intros c Hc; apply in_map_iff in Hc;
+    destruct Hc as (n & <- & Hn); [discriminate|].
+  cbn. revert n Hn. apply Forall_forall. exact H.
+Qed.
+
+Lemma absolute_shape cwd cs r :
+  names_ok cwd -> comps_wf cs -> absolute_comps cwd cs = Ok r ->
+  exists ns, r = Root :: map Normal ns /\ names_ok ns.
+Proof.
+  intros Hcwd [W1 W2]. fold cP2 in W2. rewrite absolute_comps_eq.
+  destruct (names_ok_normals cwd Hcwd) as [C1 C2].
+  assert (W1' : Forall (fun c => c <> Root) (tl cs)).
+  { revert W1. apply Forall_impl. tauto. }
+  apply (absolute_loop_shape _ [] r); [constructor | |].
+  - destruct cs as [|c cs]; cbn [joined_tail tl] in *.
+    + rewrite app_nil_r. exact C1.
+    + destruct c; try assumption; apply Forall_app; split; try assumption;
+        constructor; try assumption; discriminate.
+  - destruct cs as [|c cs]; cbn [joined_tail] in *.
+    + rewrite app_nil_r. exact C2.
+    + inversion W2; subst.
+      destruct c; try assumption; apply Forall_app; split; try assumption;
+        constructor; assumption.
+Qed.
+
+Lemma absolute_never_panics cwd cs m : absolute_comps cwd cs <> Panic m.
+Proof. rewrite absolute_comps_eq. apply absolute_loop_no_panic. Qed.
+
+Lemma joined_tail_snoc cwd cs c :
+  c <> Root -> c <> Cur -> joined_tail cwd (cs ++ [c]) = joined_tail cwd cs ++ [c].
+Proof.
+  intros H1 H2. destruct cs as [|[] cs]; cbn [app joined_tail]; rewrite <- ?app_assoc; try reflexivity.
+  destruct c; try congruence; reflexivity.
+Qed.
+
+(* appending a normal component commutes with normalisation (file in its directory) *)
+Lemma absolute_snoc cwd cs n r :
+  absolute_comps cwd cs = Ok (Root :: r) ->
+  absolute_comps cwd (cs ++ [Normal n]) = Ok (Root :: r ++ [Normal n]).
+Proof.
+  rewrite !absolute_comps_eq. intros H.
+  rewrite joined_tail_snoc by discriminate. rewrite absolute_loop_app, H. reflexivity.
+Qed.
+
+Lemma absolute_loop_parents k ns rest :
+  (length ns < k)%nat ->
+  absolute_loop (Root :: map Normal ns) (repeat Parent k ++ rest) = Err err_invalid_path.
+Proof.
+  revert ns; induction k as [|k IH]; intros ns Hlt; [inversion Hlt|].
+  cbn [repeat app absolute_loop].
+  destruct (list_snoc_cases ns) as [->|(ns' & x & ->)]; [reflexivity|].
+  rewrite rev_root_normals_snoc, rev_involutive. apply IH.
+  rewrite app_length in Hlt. cbn in Hlt. lia.
+Qed.
+
+(* a relative path that climbs above the file-system root is an error, whatever follows *)
+Lemma absolute_above_root cwd k rest :
+  (length cwd < k)%nat ->
+  absolute_comps cwd (repeat Parent k ++ rest) = Err err_invalid_path.
+Proof.
+  intros Hlt. rewrite absolute_comps_eq.
+  destruct k as [|k]; [inversion Hlt|].
+  cbn [repeat app joined_tail]. rewrite absolute_loop_app, absolute_loop_normals. cbn [bind].
+  apply (absolute_loop_parents (S k) cwd rest Hlt).
+Qed.
+
+(* the result is already normalised: normalising it again changes nothing *)
+Lemma absolute_idempotent cwd' ns :
+  absolute_comps cwd' (Root :: map Normal ns) = Ok (Root :: map Normal ns).
+Proof. rewrite absolute_comps_eq. cbn [joined_tail]. apply absolute_loop_normals. Qed.
+
+(* --- diff_paths ---------------------------------------------------------------------------- *)
+Lemma comp_eqb_refl c : comp_eqb c c = true.
+Proof. destruct c; cbn; try reflexivity. apply str_eqb_refl. Qed.
+
+(* a common prefix cancels: the relative path does not depend on where the base directory is *)
+Lemma diff_common_prefix pre a b :
+  diff_comps (pre ++ a) (pre ++ b) = diff_comps a b.
+Proof.
+  induction pre as [|x pre IH]; [reflexivity|].
+  cbn [app diff_comps]. rewrite comp_eqb_refl. exact IH.
+Qed.
+
+(* ---- auxiliary: shape of diff_comps on normal paths *)
+Lemma diff_comps_nil_l l : diff_comps [] l = repeat Parent (length l).
+Proof. induction l as [|y l IH]; [reflexivity|]. cbn [diff_comps length repeat]. rewrite IH. reflexivity. Qed.
+
+Lemma diff_comps_shape a b :
+  exists c a' b', a = c ++ a' /\ b = c ++ b' /\
+    diff_comps (map Normal a) (map Normal b) = repeat Parent (length b') ++ map Normal a' /\
+    (forall x y ra rb, a' = x :: ra -> b' = y :: rb -> x <> y).
+Proof.
+  revert b; induction a as [|x a IH]; intros b.
+  - exists [], [], b. repeat split; try discriminate.
+    cbn [map]. rewrite diff_comps_nil_l, map_length, app_nil_r. reflexivity.
+  - destruct b as [|y b].
+    + exists [], (x :: a), []. repeat split; discriminate.
+    + cbn [map diff_comps comp_eqb]. destruct (str_eqb_spec x y) as [->|Hne].
+      * destruct (IH b) as (c & a' & b' & -> & -> & E & Hd).
+        exists (y :: c), a', b'. repeat split; assumption.
+      * exists [], (x :: a), (y :: b). repeat split.
+        -- cbn [length repeat app]. rewrite map_length. reflexivity.
+        -- intros ? ? ? ? [= <- <-] [= <- <-]. exact Hne.
+Qed.
+
+(* ---- auxiliary: join and split_slash *)
+Definition pre (l : list str) : str := flat_map (fun x => x ++ [slash]) l.
+
+Lemma join_cons sep x r : r <> [] -> join sep (x :: r) = x ++ sep ++ join sep r.
+Proof. destruct r; [congruence | reflexivity]. Qed.
+
+Lemma join_snoc l z : join [slash] (l ++ [z]) = pre l ++ z.
+Proof.
+  induction l as [|x l IH]; [reflexivity|].
+  cbn [app pre flat_map]. rewrite join_cons by (destruct l; discriminate).
+  rewrite IH. fold (pre l). rewrite <- !app_assoc. reflexivity.
+Qed.
+
+Lemma split_slash_noslash a : noslash a -> split_slash a = [a].
+Proof.
+  induction a as [|c a IH]; [reflexivity|]. cbn [existsb split_slash].
+  intros H. apply orb_false_iff in H. destruct H as [Hc Ha].
+  rewrite N.eqb_sym, Hc, (IH Ha). reflexivity.
+Qed.
+
+Lemma split_slash_app a b : noslash a -> split_slash (a ++ slash :: b) = a :: split_slash b.
+Proof.
+  induction a as [|c a IH]; cbn [app existsb split_slash].
+  - intros _. rewrite N.eqb_refl. reflexivity.
+  - intros H. apply orb_false_iff in H. destruct H as [Hc Ha].
+    rewrite N.eqb_sym, Hc, (IH Ha). reflexivity.
+Qed.
+
+Lemma split_join l : l <> [] -> Forall (fun p => noslash p) l -> split_slash (join [slash] l) = l.
+Proof.
+  induction l as [|x l IH]; [congruence|]. intros _ H. inversion H as [|? ? Hx Hl]; subst.
+  destruct l as [|y l]; [apply split_slash_noslash; exact Hx|].
+  rewrite join_cons by discriminate. cbn [app]. rewrite split_slash_app by exact Hx.
+  rewrite IH; [reflexivity | discriminate | exact Hl].
+Qed.
+
+(* ---- auxiliary: walk *)
+Lemma walk_empty d r : walk d ([] :: r) = walk d r.
+Proof. reflexivity. Qed.
+
+Lemma walk_dot d r : walk d (s_dot :: r) = walk d r.
+Proof. reflexivity. Qed.
+
+Lemma walk_dotdot d x r : walk (d ++ [x]) (s_dotdot :: r) = walk d r.
+Proof.
+  cbn [walk]. change (str_eqb s_dotdot [] || str_eqb s_dotdot s_dot) with false.
+  change (str_eqb s_dotdot s_dotdot) with true. cbv iota.
+  rewrite rev_app_distr. cbn [rev app]. rewrite rev_involutive. reflexivity.
+Qed.
+
+Lemma walk_name d p r : name_ok p = true -> walk d (p :: r) = walk (d ++ [p]) r.
+Proof.
+  intros H. apply name_ok_inv in H. destruct H as (E1 & E2 & E3 & _).
+  cbn [walk]. rewrite E1, E2, E3. reflexivity.
+Qed.
+
+Lemma walk_names d a : names_ok a -> walk d a = Some (d ++ a).
+Proof.
+  revert d; induction a as [|p a IH]; intros d H; [cbn [walk]; rewrite app_nil_r; reflexivity|].
+  inversion H; subst. rewrite walk_name by assumption. rewrite IH by assumption.
+  rewrite <- app_assoc. reflexivity.
+Qed.
+
+Lemma walk_parents k d b rest :
+  length b = k -> walk (d ++ b) (repeat s_dotdot k ++ rest) = walk d rest.
+Proof.
+  revert b; induction k as [|k IH]; intros b Hb.
+  - destruct b; [|discriminate]. rewrite app_nil_r. reflexivity.
+  - destruct (list_snoc_cases b) as [->|(b' & x & ->)]; [discriminate|].
+    cbn [repeat app]. rewrite app_assoc, walk_dotdot. apply IH.
+    rewrite app_length in Hb. cbn in Hb. lia.
+Qed.
+
+Lemma walk_split_join d l :
+  Forall (fun p => noslash p) l -> walk d (split_slash (join [slash] l)) = walk d l.
+Proof.
+  intros H. destruct l as [|x l]; [reflexivity|]. rewrite split_join; [reflexivity | discriminate | exact H].
+Qed.
+
+Lemma map_repeat' {A B} (f : A -> B) x k : map f (repeat x k) = repeat (f x) k.
+Proof. induction k; cbn; congruence. Qed.
+
+Definition rel_comps (k : nat) (a : list str) : list comp := repeat Parent k ++ map Normal a.
+Definition rel_pieces (k : nat) (a : list str) : list str := repeat s_dotdot k ++ a.
+
+Lemma render_rel k a : render (rel_comps k a) = join [slash] (rel_pieces k a).
+Proof.
+  assert (E : map comp_text (rel_comps k a) = rel_pieces k a).
+  { unfold rel_comps, rel_pieces. rewrite map_app, map_repeat', map_map. cbn [comp_text].
+    rewrite map_id. reflexivity. }
+  rewrite <- E. unfold render, rel_comps. destruct k; [destruct a|]; reflexivity.
+Qed.
+
+Lemma names_ok_noslash a : names_ok a -> Forall (fun p => noslash p) a.
+Proof. apply Forall_impl. intros n H. apply name_ok_inv in H. tauto. Qed.
+
+Lemma rel_pieces_noslash k a : names_ok a -> Forall (fun p => noslash p) (rel_pieces k a).
+Proof.
+  intros H. apply Forall_app. split; [|apply names_ok_noslash; exact H].
+  apply Forall_forall. intros x Hx. apply repeat_spec in Hx. subst. reflexivity.
+Qed.
+
+Lemma walk_rel c b' a' :
+  names_ok a' ->
+  walk (c ++ b') (split_slash (render (rel_comps (length b') a'))) = Some (c ++ a').
+Proof.
+  intros Ha. rewrite render_rel, walk_split_join by (apply rel_pieces_noslash; exact Ha).
+  unfold rel_pieces. rewrite walk_parents by reflexivity. apply walk_names; exact Ha.
+Qed.
+
+(* the core of C08: walking the computed relative path from the base directory arrives at the
+   target, for paths of any depth *)
+Lemma diff_walk p b :
+  names_ok p -> names_ok b ->
+  walk b (split_slash (render (diff_comps (map Normal p) (map Normal b)))) = Some p.
+Proof.
+  intros Hp _. destruct (diff_comps_shape p b) as (c & a' & b' & -> & -> & E & _).
+  rewrite E. apply walk_rel. apply Forall_app in Hp. apply Hp.
+Qed.
+
+(* ---- auxiliary: the text of a relative specifier *)
+Definition shown (rel : list comp) : str :=
+  match rel with Normal _ :: _ => lit "./" ++ render rel | _ => render rel end.
+
+(* everything of the shown relative path before its last piece *)
+Definition spec_prefix (k : nat) (a : list str) : str :=
+  match k with O => lit "./" ++ pre a | S _ => pre (rel_pieces k a) end.
+
+Lemma rel_pieces_snoc k a z : rel_pieces k (a ++ [z]) = rel_pieces k a ++ [z].
+Proof. unfold rel_pieces. apply app_assoc. Qed.
+
+Lemma shown_rel k a z : shown (rel_comps k (a ++ [z])) = spec_prefix k a ++ z.
+Proof.
+  unfold shown. rewrite render_rel, rel_pieces_snoc, join_snoc.
+  destruct k as [|k]; [destruct a|]; reflexivity.
+Qed.
+
+Lemma pre_snoc l x : pre (l ++ [x]) = (pre l ++ x) ++ [slash].
+Proof. unfold pre. rewrite flat_map_app. cbn [flat_map]. rewrite app_nil_r, app_assoc. reflexivity. Qed.
+
+Lemma pre_slash l : l <> [] -> exists X', pre l = X' ++ [slash].
+Proof.
+  intros H. destruct (list_snoc_cases l) as [->|(l' & x & ->)]; [congruence|].
+  rewrite pre_snoc. eauto.
+Qed.
+
+Lemma spec_prefix_slash k a : exists X', spec_prefix k a = X' ++ [slash].
+Proof.
+  destruct k as [|k]; cbn [spec_prefix].
+  - destruct a as [|x a].
+    + exists [dot]. reflexivity.
+    + destruct (pre_slash (x :: a)) as [X' ->]; [discriminate|].
+      exists (lit "./" ++ X'). rewrite app_assoc. reflexivity.
+  - apply pre_slash. discriminate.
+Qed.
+
+Lemma spec_prefix_relative k a rest : is_relative_spec (spec_prefix k a ++ rest) = true.
+Proof.
+  unfold is_relative_spec. apply orb_true_iff. destruct k as [|k]; cbn [spec_prefix].
+  - left. apply starts_with_spec. rewrite <- app_assoc. eauto.
+  - right. apply starts_with_spec. cbn [rel_pieces repeat app pre flat_map].
+    exists (flat_map (fun x => x ++ [slash]) (repeat s_dotdot k ++ a) ++ rest). reflexivity.
+Qed.
+
+Lemma in_pre c l : In c (pre l) -> c = slash \/ exists x, In x l /\ In c x.
+Proof.
+  unfold pre. rewrite in_flat_map. intros (x & Hx & Hc). apply in_app_iff in Hc.
+  destruct Hc as [Hc|[<-|[]]]; eauto.
+Qed.
+
+Lemma spec_prefix_backslash k a :
+  In backslash (spec_prefix k a) -> exists x, In x a /\ In backslash x.
+Proof.
+  assert (Hpre : forall l, In backslash (pre (repeat s_dotdot l ++ a)) ->
+                           exists x, In x a /\ In backslash x).
+  { intros l H. apply in_pre in H. destruct H as [H|(x & Hx & Hc)]; [discriminate|].
+    apply in_app_iff in Hx. destruct Hx as [Hx|Hx]; [|eauto].
+    apply repeat_spec in Hx. subst x. cbn in Hc.
+    repeat (destruct Hc as [Hc|Hc]; [discriminate|]). destruct Hc. }
+  destruct k as [|k]; cbn [spec_prefix].
+  - intros H. apply in_app_iff in H. destruct H as [H|H]; [|apply (Hpre 0%nat); exact H].
+    cbn in H. repeat (destruct H as [H|H]; [discriminate|]). destruct H.
+  - apply Hpre.
+Qed.
+
+Lemma spec_prefix_cur k a : spec_prefix k a = lit "./" -> k = 0%nat /\ a = [].
+Proof.
+  destruct k as [|k]; cbn [spec_prefix].
+  - intros H. split; [reflexivity|]. destruct a as [|x a]; [reflexivity|].
+    apply (f_equal (@length _)) in H. cbn [pre flat_map] in H. rewrite !app_length in H.
+    cbn in H. lia.
+  - cbn [rel_pieces repeat app pre flat_map]. discriminate.
+Qed.
+
+Lemma walk_spec_prefix d k a z :
+  names_ok (a ++ [z]) ->
+  walk d (split_slash (spec_prefix k a ++ z)) = walk d (rel_pieces k (a ++ [z])).
+Proof.
+  intros H. pose proof (rel_pieces_noslash k _ H) as Hns.
+  destruct k as [|k]; cbn [spec_prefix].
+  - rewrite <- app_assoc, <- join_snoc.
+    change (lit "./" ++ join [slash] (a ++ [z])) with (s_dot ++ slash :: join [slash] (rel_pieces 0 (a ++ [z]))).
+    rewrite split_slash_app by reflexivity. rewrite walk_dot. apply walk_split_join. exact Hns.
+  - rewrite <- join_snoc, <- rel_pieces_snoc. apply walk_split_join. exact Hns.
+Qed.
+
+Lemma walk_spec c b' a z :
+  names_ok (a ++ [z]) ->
+  walk (c ++ b') (split_slash (spec_prefix (length b') a ++ z)) = Some (c ++ a ++ [z]).
+Proof.
+  intros H. rewrite walk_spec_prefix by exact H. unfold rel_pieces.
+  rewrite walk_parents by reflexivity. apply walk_names. exact H.
+Qed.
+
+Lemma ends_with_after_slash p X' s :
+  ~ In slash p -> ends_with p ((X' ++ [slash]) ++ s) = ends_with p s.
+Proof. intros H. rewrite <- app_assoc. cbn [app]. apply ends_with_app_notin. exact H. Qed.
+
+Lemma slash_notin_ts : ~ In slash s_ts.
+Proof. cbn. intros H. repeat (destruct H as [H|H]; [discriminate|]). exact H. Qed.
+Lemma slash_notin_js : ~ In slash s_js.
+Proof. cbn. intros H. repeat (destruct H as [H|H]; [discriminate|]). exact H. Qed.
+
+Lemma noslash_app a b : noslash (a ++ b) <-> noslash a /\ noslash b.
+Proof. rewrite existsb_app. apply orb_false_iff. Qed.
+
+Lemma last_slash_unique u u' v v' :
+  noslash v -> noslash v' -> u ++ slash :: v = u' ++ slash :: v' -> u = u' /\ v = v'.
+Proof.
+  intros Hv Hv'. revert u'; induction u as [|x u IH]; intros [|y u']; cbn [app]; intros E.
+  - injection E as <-. auto.
+  - injection E as <- ->. apply noslash_app in Hv. destruct Hv as [_ Hv].
+    cbn [existsb] in Hv. rewrite N.eqb_refl in Hv. discriminate.
+  - injection E as -> <-. apply noslash_app in Hv'. destruct Hv' as [_ Hv'].
+    cbn [existsb] in Hv'. rewrite N.eqb_refl in Hv'. discriminate.
+  - injection E as <- E. destruct (IH _ E) as [<- <-]. auto.
+Qed.
+
+Lemma parent_comps_snoc fc n : parent_comps (fc ++ [Normal n]) = Some fc.
+Proof. unfold parent_comps. rewrite rev_app_distr. cbn [rev app]. rewrite rev_involutive. reflexivity. Qed.
+
+Lemma file_name_snoc fc n : file_name (fc ++ [Normal n]) = Some n.
+Proof. unfold file_name. rewrite rev_app_distr. reflexivity. Qed.
+
+(* --- import_path --------------------------------------------------------------------------- *)
+Section ImportPath.
+Variables (esm : bool) (cwd : list str) (from to : str).
+Variables (fc : list comp) (fname : str) (fdir tdir : list str) (stem : str).
+Hypothesis Hcwd : names_ok cwd.
+Hypothesis Hfrom : components from = fc ++ [Normal fname].
+Hypothesis Hfdir : absolute_comps cwd fc = Ok (Root :: map Normal fdir).
+Hypothesis Hto : absolute cwd to = Ok (Root :: map Normal (tdir ++ [stem ++ s_ts])).
+Hypothesis Hstem : ends_with s_ts stem = false.
+Hypothesis Hnames : names_ok (fdir ++ tdir ++ [stem ++ s_ts]).
+Hypothesis Hbs : no_backslash (fdir ++ tdir ++ [stem]).
+(* the imported file is not itself an ancestor directory of the importing file *)
+Hypothesis Hnotdir : forall r, fdir <> tdir ++ [stem ++ s_ts] ++ r.
+
+(* the relative path: common prefix c, then |b'| times `..`, then a and the file name *)
+Lemma import_rel_shape :
+  exists c a b', tdir = c ++ a /\ fdir = c ++ b' /\
+    diff_comps (map Normal (tdir ++ [stem ++ s_ts])) (map Normal fdir)
+      = rel_comps (length b') (a ++ [stem ++ s_ts]) /\
+    (forall x y ra rb, a ++ [stem ++ s_ts] = x :: ra -> b' = y :: rb -> x <> y).
+Proof using Hnotdir.
+  destruct (diff_comps_shape (tdir ++ [stem ++ s_ts]) fdir) as (c & a' & b' & Ea & Eb & E & Hd).
+  destruct (list_snoc_cases a') as [->|(a & z & ->)].
+  - exfalso. rewrite app_nil_r in Ea. apply (Hnotdir b'). rewrite Eb, <- Ea, <- app_assoc. reflexivity.
+  - rewrite app_assoc in Ea. apply app_inj_tail in Ea. destruct Ea as [Ea <-].
+    exists c, a, b'. repeat split; assumption.
+Qed.
+
+Lemma import_path_value :
+  exists c a b', tdir = c ++ a /\ fdir = c ++ b' /\
+    (forall x y ra rb, a ++ [stem ++ s_ts] = x :: ra -> b' = y :: rb -> x <> y) /\
+    import_path esm cwd from to =
+      Ok (if esm then (spec_prefix (length b') a ++ stem) ++ s_js
+          else spec_prefix (length b') a ++ stem).
+Proof using Hfrom Hfdir Hto Hstem Hnotdir.
+  destruct import_rel_shape as (c & a & b' & Et & Ef & E & Hd).
+  exists c, a, b'. repeat split; try assumption.
+  unfold import_path. rewrite Hfrom, parent_comps_snoc. unfold diff_paths.
+  unfold absolute in Hto. rewrite Hto, Hfdir. cbn [bind diff_comps comp_eqb]. rewrite E.
+  change (Ok (if esm then trim_end_matches s_ts (shown (rel_comps (length b') (a ++ [stem ++ s_ts]))) ++ s_js
+              else trim_end_matches s_ts (shown (rel_comps (length b') (a ++ [stem ++ s_ts])))) =
+          Ok (if esm then (spec_prefix (length b') a ++ stem) ++ s_js
+              else spec_prefix (length b') a ++ stem)).
+  rewrite shown_rel, app_assoc, trim_end_matches_once; [reflexivity | discriminate |].
+  destruct (spec_prefix_slash (length b') a) as [X' ->].
+  rewrite ends_with_after_slash by exact slash_notin_ts. exact Hstem.
+Qed.
+
+Lemma import_path_resolves :
+  exists s, import_path esm cwd from to = Ok s /\
+    is_relative_spec s = true /\
+    ~ In backslash s /\
+    (esm = false -> ends_with s_ts s = false) /\
+    (esm = true -> ends_with s_js s = true) /\
+    resolve esm fdir s = Some (tdir ++ [stem ++ s_ts]).
+Proof using All.
+  destruct import_path_value as (c & a & b' & Et & Ef & Hd & Ev).
+  set (X := spec_prefix (length b') a) in *.
+  assert (Hts : ends_with s_ts (X ++ stem) = false).
+  { subst X. destruct (spec_prefix_slash (length b') a) as [X' ->].
+    rewrite ends_with_after_slash by exact slash_notin_ts. exact Hstem. }
+  assert (Hnb : ~ In backslash (X ++ stem)).
+  { intros H. apply in_app_iff in H. unfold no_backslash in Hbs. rewrite Forall_forall in Hbs.
+    destruct H as [H|H].
+    - apply spec_prefix_backslash in H. destruct H as (x & Hx & Hc).
+      apply (Hbs x); [|exact Hc]. rewrite Et, !in_app_iff. auto.
+    - apply (Hbs stem); [|exact H]. rewrite !in_app_iff. cbn. auto. }
+  assert (Hwalk : walk fdir (split_slash ((X ++ stem) ++ s_ts)) = Some (tdir ++ [stem ++ s_ts])).
+  { rewrite <- app_assoc. subst X. rewrite Ef, walk_spec.
+    - rewrite Et, <- app_assoc. reflexivity.
+    - unfold names_ok in Hnames. rewrite Et, !Forall_app in Hnames.
+      apply Forall_app. tauto. }
+  eexists. split; [exact Ev|]. repeat split.
+  - destruct esm; rewrite <- ?app_assoc; apply spec_prefix_relative.
+  - destruct esm; [|exact Hnb]. intros H. apply in_app_iff in H. destruct H as [H|H]; [auto|].
+    cbn in H. repeat (destruct H as [H|H]; [discriminate|]). exact H.
+  - intros ->. exact Hts.
+  - intros ->. apply ends_with_spec. eauto.
+  - unfold resolve. destruct esm; [rewrite strip_suffix_app|]; exact Hwalk.
+Qed.
+
+(* the same-file test is exact, for file names `<stem>.ts` whose stem does not itself end in
+   `.ts` or `.js` *)
+Variable fstem : str.
+Hypothesis Hfname : fname = fstem ++ s_ts.
+Hypothesis Hfstem : ends_with s_ts fstem = false.
+Hypothesis Hjs1 : ends_with s_js stem = false.
+Hypothesis Hjs2 : ends_with s_js fstem = false.
+Hypothesis Hfname_ok : name_ok fname = true.
+
+Lemma same_file_exact s :
+  import_path esm cwd from to = Ok s ->
+  (is_same_file from s = true <-> (fdir = tdir /\ fstem = stem)).
+Proof using All.
+  destruct import_path_value as (c & a & b' & Et & Ef & Hd & Ev).
+  rewrite Ev. intros [= <-].
+  set (X := spec_prefix (length b') a) in *.
+  assert (Hjs : ends_with s_js (X ++ stem) = false).
+  { subst X. destruct (spec_prefix_slash (length b') a) as [X' ->].
+    rewrite ends_with_after_slash by exact slash_notin_js. exact Hjs1. }
+  unfold is_same_file. rewrite Hfrom, file_name_snoc.
+  match goal with |- context [trim_end_matches s_js ?t] =>
+    assert (Etrim : trim_end_matches s_js t = X ++ stem)
+  end.
+  { destruct esm; [apply trim_end_matches_once; [discriminate | exact Hjs]
+                  | apply trim_end_matches_none; exact Hjs]. }
+  rewrite Etrim, Hfname.
+  rewrite trim_end_matches_once by (discriminate || exact Hfstem).
+  rewrite str_eqb_eq.
+  assert (Hns_f : noslash fstem).
+  { rewrite Hfname in Hfname_ok. apply name_ok_inv in Hfname_ok.
+    destruct Hfname_ok as (_ & _ & _ & H). apply noslash_app in H. apply H. }
+  assert (Hns_s : noslash stem).
+  { unfold names_ok in Hnames. rewrite !Forall_app in Hnames. destruct Hnames as (_ & _ & H).
+    inversion H as [|? ? H1 _]; subst. apply name_ok_inv in H1.
+    destruct H1 as (_ & _ & _ & H1). apply noslash_app in H1. apply H1. }
+  split.
+  - intros E. destruct (spec_prefix_slash (length b') a) as [X' EX]. fold X in EX.
+    rewrite EX in E. rewrite <- app_assoc in E.
+    change (lit "./" ++ fstem) with ([dot] ++ slash :: fstem) in E. cbn [app] in E.
+    change (dot :: slash :: fstem) with ([dot] ++ slash :: fstem) in E.
+    apply last_slash_unique in E; try assumption. destruct E as [<- ->].
+    split; [|reflexivity].
+    destruct (spec_prefix_cur (length b') a EX) as [Hl ->].
+    destruct b'; [|discriminate]. rewrite Et, Ef. reflexivity.
+  - intros [E ->]. rewrite Et, Ef in E. apply app_inv_head in E. subst b'.
+    destruct a as [|x a].
+    + reflexivity.
+    + exfalso. apply (Hd x x (a ++ [stem ++ s_ts]) a); reflexivity.
+Qed.
+End ImportPath.
